@@ -51,7 +51,9 @@ CLAIMS = {
              "shape of ArgumentContainer::findArg (no exit from the search loop before every argument was compared "
              "exactly), accept-side truth tables of all bound checks/cardinalities over every ordering (Engine B), "
              "abstract evaluation of the ignore_cardinality argument for every read mode plus RAII read-mode flags "
-             "alive around iterateArguments, canonical key for constraint matching. The general statement is not "
+             "alive around iterateArguments, every call of ICardinality::gotValue() in the library control-dependent "
+             "on that information (the parameter in assignValue, a member set from it in the list loops of the "
+             "multi-value destinations), canonical key for constraint matching. The general statement is not "
              "decidable statically and is not claimed.",
         note="trusts clang AST/CFG; boost::lexical_cast converts every representable value; interaction of arbitrary "
              "checks/formats/constraints is not decided", also=("engine B (boolshape.py)",),
